@@ -558,4 +558,80 @@ Qed.
 
 End Handle.
 
+
+(* ---------------- the same, stated on validated path strings ---------------- *)
+Lemma ok_path_relpath p : ok_path p = true -> relpath p (comps p).
+Proof.
+  intros H. pose proof (ok_path_okc p H) as Hk. rewrite <- (joinc_comps p) at 1. apply relpath_joinc. exact Hk.
+Qed.
+
+Lemma okc_snoc_okname pre t n : okc (pre ++ [n]) -> okname t -> okc (pre ++ [t]).
+Proof.
+  intros (_ & Hn & Hs) [Ht1 Ht2]. apply Forall_app in Hn, Hs. destruct Hn as [Hn _], Hs as [Hs _].
+  repeat split.
+  - destruct pre; discriminate.
+  - apply Forall_app; auto.
+  - apply Forall_app; auto.
+Qed.
+
+Lemma tmp_path_joinc pre n t : okc (pre ++ [n]) -> tmp_path (joinc (pre ++ [n])) t = joinc (pre ++ [t]).
+Proof.
+  intros H. pose proof H as (_ & _ & Hs). unfold tmp_path, parent_of. rewrite split_last_joinc by auto.
+  destruct pre as [|c0 pre0]; [reflexivity|].
+  rewrite removelast_last.
+  assert (Hk : okc (c0 :: pre0)) by (apply (okc_prefix _ n); [discriminate|exact H]).
+  destruct (joinc (c0 :: pre0)) eqn:E.
+  - exfalso. destruct (okc_not_special _ Hk) as (H1 & _). congruence.
+  - rewrite <- E. rewrite joinc_snoc by discriminate. reflexivity.
+Qed.
+
+Lemma split_comps p : ok_path p = true -> comps p = removelast (comps p) ++ [last (comps p) []].
+Proof.
+  intros H. apply app_removelast_last. pose proof (ok_path_okc p H) as (Hne & _). exact Hne.
+Qed.
+
+Theorem dw_handle_contained c f tmp kind p st :
+  wf f -> c_cwd c = D -> ok_path p = true -> okname tmp -> ~ In tmp (comps p) ->
+  let pre := removelast (comps p) in
+  let bn := last (comps p) [] in
+  safe f D pre ->
+  (forall dd, rwalk f D pre = Some dd -> blookup tmp (ents f dd) = None) ->
+  (hardlink_branch st = true ->
+     ok_path (st_linkname st) = true /\ safe f D (removelast (comps (st_linkname st)))) ->
+  let r := dw_handle c f tmp kind p st in
+  let g := fst r in
+  step (Tp f tmp pre bn) (f_next f) f g
+  /\ (forall cs', off tmp pre bn cs' -> (safe f D cs' -> safe g D cs') /\ rwalk g D cs' = rwalk f D cs')
+  /\ (forall pre' n' dd', off tmp pre bn (pre' ++ [n']) -> rwalk f D pre' = Some dd' ->
+         blookup n' (ents g dd') = blookup n' (ents f dd'))
+  /\ (forall a nd, snd r = DwOk a nd ->
+        (forall dd, rwalk f D pre = Some dd -> blookup tmp (ents g dd) = None)
+        /\ (kind <> 2 -> solid st = true -> safe g D (comps p))
+        /\ (a = true -> exists dd i, rwalk f D pre = Some dd /\ blookup bn (ents g dd) = Some i /\ f_next f <= i)).
+Proof.
+  intros W Hc Hok Htmp Hnin pre bn Hsafe Hfree Hlink r g.
+  pose proof (split_comps p Hok) as Ecs. fold pre bn in Ecs.
+  pose proof (ok_path_okc p Hok) as Hk. rewrite Ecs in Hk.
+  assert (Hp : relpath p (pre ++ [bn])) by (rewrite <- Ecs; apply ok_path_relpath; auto).
+  assert (Hnp : relpath (tmp_path p tmp) (pre ++ [tmp])).
+  { rewrite <- (joinc_comps p) at 1. rewrite Ecs. rewrite (tmp_path_joinc pre bn tmp Hk).
+    apply relpath_joinc. apply (okc_snoc_okname pre tmp bn); auto. }
+  assert (Hne : tmp <> bn).
+  { intro E. apply Hnin. rewrite Ecs. apply in_or_app. right. left. auto. }
+  assert (Hlink' : hardlink_branch st = true ->
+            exists pre1 n1, relpath (st_linkname st) (pre1 ++ [n1]) /\ safe f D pre1).
+  { intros Hb. destruct (Hlink Hb) as [Hokl Hsl].
+    exists (removelast (comps (st_linkname st))), (last (comps (st_linkname st)) []).
+    rewrite <- (split_comps _ Hokl). split; auto. apply ok_path_relpath; auto. }
+  pose proof (dw_handle_spec c f tmp p pre bn st W Hc Hp Hnp Hne Hsafe Hfree Hlink' kind) as [S P].
+  fold r in S, P. fold g in S, P.
+  split; [exact S|]. split; [|split].
+  - intros cs' Ho. split.
+    + apply (kept_safe f tmp pre bn W Hfree g cs' S Ho).
+    + apply (kept_rwalk f tmp pre bn W Hfree g cs' S Ho).
+  - intros pre' n' dd' Ho Hw. apply (kept_dent f tmp pre bn W g pre' n' dd' S Ho Hw).
+  - intros a nd Hres. destruct (P a nd Hres) as (A & B & C). split; [exact A|]. split; [|exact C].
+    intros Hk2 Hs. rewrite Ecs. apply B; auto.
+Qed.
+
 End Dw.
